@@ -442,6 +442,30 @@ SEEDS = {
         property="C19", change="_lou_isValidMode accepts every bit below partialTrans<<1, i.e. also the unused bits 8 and 16",
         needs="a mode containing 8 or 16: no error message any more", first="missed (the invalid modes of the pool were 99999 and 262144)",
         strengthened="modes with the two unused bits and their combinations in the pool; which modes must produce the message is decided from the documented set of bits"),
+    # ---- round 7 (six properties, five kept)
+    "C03g-back-posincremented-early": dict(
+        property="C03", change="backTranslateString sets posIncremented = 1 before back_selectRule instead of behind it: the guard for non-advancing context rules never fires",
+        needs="a backward context rule with zero-width brackets and an action that writes nothing", first="caught (C03: hang at site 9)", strengthened=""),
+    "C05f-eq-rule-putcharacters": dict(
+        property="C05", change="the replacement step of `=` rules emits all characters at the rule's start position",
+        needs="a multi-character `=` rule; position arrays, or a capacity ending inside the rule", first="caught (C05: engine mismatch)", strengthened=""),
+    "C08f-cache-prefix-translation": dict(
+        property="C08", change="the translation-table cache matches a requested name that is a prefix of a cached list string (the mechanism of C20d/C15f, offered for C08)",
+        needs="a longer list used first, then the list that is its leading substring, the two translating differently",
+        first="caught at proof level only", strengthened="the C08 pool has a list and a longer list beginning with its name that translates differently, and scenarios using them in that order from an empty cache"),
+    "C10f-repeated-cursor-break": dict(
+        property="C10", change="the loop that skips further repetitions of a `repeated` rule stops at the repetition holding the cursor",
+        needs="a repeated rule, a run of at least two repetitions, cursorPos inside the second or a later one",
+        first="missed (no runs of repeated characters among C10's inputs)", strengthened="every fourth C10 input contains runs of one repeated character (the cursor sweep then visits every position of the run)"),
+    "C14f-errorcount-reset-removed": dict(
+        property="C14", change="compileString no longer resets the compiler's error counter (the defect fixed by b1485cc7 re-introduced)",
+        needs="a failed compilation, then lou_compileString(list, \"include valid\") on a cached, unfinalised list",
+        first="missed by C14 (C15 catches it with its bursts)", strengthened="operation `add a valid include to A` in C14, in sequences behind each failing operation"),
+    "C16f-list-base-resolved-path": dict(
+        property="C16", change="the later members of a table list are resolved against the path where the first member was FOUND instead of its name as given",
+        needs="a first member found only through the search path and a later member whose name exists both in the working directory and next to the first one",
+        first="missed by C16 (caught by C20: precedence mismatch, translation-only compile) - the change is one of name resolution, which C16's packaging variants (absolute names) do not vary",
+        strengthened="none for C16: which file a name denotes is C20's property, and its exhaustive arrangement reports the change with a concrete replay"),
 }
 
 
